@@ -248,6 +248,8 @@ def explore(ctx: Ctx):
         ("box", "onehot", tables(2, 2, "box", "onehot", [0, 3], True)),
     ) + ((("discrete", "discrete", tables(3, 2, "discrete", "discrete", [0, 3], True)),) if thorough else ()):
         stacks = [s for s in wrapx.all_stacks(3 if thorough else 2, act, obs) if len(s) <= 1 or any(w[0] == "TimeLimit" for w in s)]
+        # outer limits both shorter and longer than the base MDP's own time limit / an inner TimeLimit
+        stacks += [[["TimeLimit", n]] for n in (1, 4, 5)] + [[["TimeLimit", m], ["TimeLimit", n]] for m, n in ((1, 3), (3, 1), (3, 5), (2, 4))]
         for spec in stacks:
             for t in tabs:
                 cases.append(dict(spec=spec, table=t, keys=keys[:4], depth=6))
